@@ -37,6 +37,9 @@ const F_PARTIAL: u8 = 4;
 /// pseudo flush value: the action is CompressorOxide::reset() - whatever stream was in progress is
 /// dropped (its output is discarded) and the rest of the input becomes a new stream
 const F_RESET: u8 = 100;
+/// capacity sentinel: this one call goes through compress_to_output (callback sink) although the
+/// exploration's entry point is `compress` - the two public entry points mixed on one object
+const CAP_CALLBACK: u32 = u32::MAX - 2;
 
 #[derive(Clone, Copy, Debug, PartialEq, Eq)]
 pub enum Entry {
@@ -274,10 +277,11 @@ impl<'a> Model for CompModel<'a> {
         let limit = s.declared.unwrap_or(self.input.len());
         let left = limit - s.ip;
         let k = if s.declared.is_some() || a.k == REST { left } else { (a.k as usize).min(left) };
-        let cap = a.cap as usize;
+        let entry = if a.cap == CAP_CALLBACK && self.entry == Entry::Compress { Entry::Callback } else { self.entry };
+        let cap = if a.cap == CAP_CALLBACK { LARGE as usize } else { a.cap as usize };
         let inp = &self.input[s.ip..s.ip + k];
-        let mut buf: Vec<u8> = if self.entry == Entry::Callback { vec![] } else { vec![0u8; cap] };
-        let res = guarded(|| match self.entry {
+        let mut buf: Vec<u8> = if entry == Entry::Callback { vec![] } else { vec![0u8; cap] };
+        let res = guarded(|| match entry {
             Entry::Compress => {
                 let (st, c, w) = compress(&mut s.c, inp, &mut buf, FL[flush_i as usize]);
                 (st as i32, c, w)
@@ -319,7 +323,7 @@ impl<'a> Model for CompModel<'a> {
                 return false;
             }};
         }
-        let cap_eff = if self.entry == Entry::Callback { usize::MAX } else { cap };
+        let cap_eff = if entry == Entry::Callback { usize::MAX } else { cap };
         if consumed > k || written > cap_eff {
             fail!("C02", "counts", "consumed {} of {} offered, wrote {} of {} capacity", consumed, k, written, cap_eff);
         }
@@ -350,7 +354,7 @@ impl<'a> Model for CompModel<'a> {
             return false;
         }
         // C12: flush points
-        if matches!(flush_i, F_SYNC | F_FULL | F_PARTIAL) && s.prev_room_left && consumed == k && room_left && self.entry != Entry::Callback {
+        if matches!(flush_i, F_SYNC | F_FULL | F_PARTIAL) && s.prev_room_left && consumed == k && room_left && entry != Entry::Callback {
             self.count("flush_points_checked");
             let mut o = Opts::fmt(self.cfg.zlib);
             o.keep_tokens = false;
@@ -370,7 +374,7 @@ impl<'a> Model for CompModel<'a> {
             if flush_i == F_FULL {
                 s.full_points.push(FlushPoint { kind: flush_i, out_len: s.out.len(), in_len: s.ip - s.base });
             }
-        } else if flush_i == F_FULL && s.prev_room_left && consumed == k && s.ip - s.base <= 20_000 && self.entry != Entry::Callback {
+        } else if flush_i == F_FULL && s.prev_room_left && consumed == k && s.ip - s.base <= 20_000 && entry != Entry::Callback {
             // a Full flush whose own output did not fit the caller's buffer: with at most 20000 bytes
             // consumed since the start no block was cut before, so this call did perform the flush;
             // the history cut must hold at this input offset (standalone decoding is not checked:
@@ -651,6 +655,13 @@ pub fn explore(rep: &Report, prop: &str, th: bool) -> Explored {
                 };
                 let mut alts = alts;
                 alts.push(Act { k: 0, cap: 0, flush: F_RESET });
+                if e == 0 {
+                    for &f in &[F_NONE, F_SYNC, F_FULL, F_FINISH, F_PARTIAL] {
+                        for &k in &[0u32, 1, 258, REST] {
+                            alts.push(Act { k, cap: CAP_CALLBACK, flush: f });
+                        }
+                    }
+                }
                 let mut ds = DevSearch::new(&m, pol, alts, 100_000, u64::MAX);
                 ds.stride = match p { 0 | 1 => 1, 2 => if th { 4 } else { 16 }, _ => if th { 16 } else { 64 } };
                 ds.run(m.init(), 1);
